@@ -1461,7 +1461,7 @@ def context_reuse_histories(run: Run) -> None:
         mk = (lambda: XPathContext(root, namespaces=dict(NS), variables={'v': v})) if item is None else \
             (lambda: XPathContext(root, namespaces=dict(NS), item=item, variables={'v': v}))
         ctx = mk()
-        s0, hist, f05f = state(ctx), [], False
+        s0, hist = state(ctx), []
         for _ in range(rng.randrange(4, 12)):
             e = rng.choice(exprs)
             hist.append(e)
@@ -1475,10 +1475,7 @@ def context_reuse_histories(run: Run) -> None:
             run.stats.count('context-reuse-steps')
             case = {'document': DOCS[d][1], 'v': v, 'context_item': None if item is None else str(item.tag),
                     'last_api': api, 'expressions_on_one_context': list(hist)}
-            # trigger of finding F05f (until fix-c05-4 is picked): lang( / boolean( / not( or a bare `..` through evaluate()
-            # was evaluated on this context
-            f05f = f05f or bool(re.search(r'\b(lang|boolean|not)\s*\(', e)) or (e.strip() == '..' and api == 'evaluate')
-            tags = ['F05f'] if f05f else []
+            tags = []
             if got != fresh:
                 run.disagree(Disagreement(case, got, None, spec=fresh, what='reused-context-vs-fresh', site='XPathContext focus',
                                           tags=tags))
